@@ -1628,13 +1628,14 @@ class Counter(object):
         self.value = value
         self.counters = context.counters
 
+    # Only stepping a counter resets the counters declared within it;
+    # \setcounter and \addtocounter are plain assignments
+
     def addtocounter(self, other):
         self.value += int(other)
-        self.resetcounters()
 
     def setcounter(self, other):
         self.value = int(other)
-        self.resetcounters()
 
     def stepcounter(self):
         self.value += 1
